@@ -805,10 +805,10 @@ Proof.
 Qed.
 
 Lemma step_no_idle_hold : forall cfg st o,
-  session_mode cfg = false -> is_intercept_hold o = false -> no_idle_hold st -> no_idle_hold (step cfg st o).
+  session_mode cfg = false -> f14_mutant cfg = false -> no_idle_hold st -> no_idle_hold (step cfg st o).
 Proof.
   intros cfg st o SM NI H. unfold step. destruct (enabled cfg st o) eqn:EN; cbn [negb]; [|exact H].
-  destruct o as [c|c| | |c fatal|c|c b|c|c|c how b|c|s|s]; cbn in EN, NI; try discriminate.
+  destruct o as [c|c| | |c fatal|c|c b|c|c|c how b|c|s|s]; cbn in EN.
   - apply nih_try_get, H.
   - apply nih_try_get. exact H.
   - intros d s'. rewrite clients_put_idle. cbn. apply H.
@@ -817,6 +817,8 @@ Proof.
   - destruct (clients st c); try exact H. cbn. intros d s'. apply nih_set; [exact H|discriminate].
   - destruct (clients st c); try exact H. unfold release. intros d s'. rewrite clients_put_back. cbn. apply nih_set; [exact H|discriminate].
   - destruct (clients st c); try discriminate. rewrite SM in EN. discriminate.
+  - (* InterceptHold: not enabled in the code that exists *)
+    destruct (clients st c) as [| |s ph|]; try discriminate. destruct ph; congruence.
   - destruct (clients st c); try exact H. unfold release. intros d s'. rewrite clients_put_back. cbn. apply nih_set; [exact H|discriminate].
   - cbn. intros d s. apply nih_set; [exact H|discriminate].
   - exact H.
@@ -824,23 +826,25 @@ Proof.
 Qed.
 
 Lemma no_idle_hold_lemma : forall cfg ops,
-  session_mode cfg = false -> known_intercept_hold ops = false -> no_idle_hold (run cfg ops).
+  session_mode cfg = false -> f14_mutant cfg = false -> no_idle_hold (run cfg ops).
 Proof.
-  intros cfg ops SM. unfold run. assert (H0 : no_idle_hold init) by (intros c s; discriminate).
-  revert H0. generalize init. induction ops as [|o r IH]; intros st H K; cbn; [exact H|].
-  cbn in K. apply orb_false_iff in K. destruct K as [K1 K2].
-  apply IH; [apply step_no_idle_hold; assumption|exact K2].
+  intros cfg ops SM NM. unfold run. assert (H0 : no_idle_hold init) by (intros c s; discriminate).
+  revert H0. generalize init. induction ops as [|o r IH]; intros st H; cbn; [exact H|].
+  apply IH. apply step_no_idle_hold; assumption.
 Qed.
 
-(** the F14 witness: pool of one connection, transaction mode; client 0 sends an intercepted
-    Parse/Bind/Execute/Sync, gets its fake reply and sits idle HOLDING connection 0; client 1's
-    checkout waits and times out although nobody is in a transaction. *)
-Definition f14_cfg : config := mkConfig 1 0 Lifo false.
+(** the F14 witness, for the MUTANT (the code before a7d476c): pool of one connection,
+    transaction mode; client 0 sends an intercepted Parse/Bind/Execute/Sync, gets its fake reply
+    and sits idle HOLDING connection 0; client 1's checkout waits and times out although nobody
+    is in a transaction.  In the model of the code that exists the same ops leave client 0 at
+    [Holding 0 Fresh] only because InterceptHold is not enabled there — the real client never
+    checks out for such a batch at all. *)
+Definition f14_cfg : config := mkConfig 1 0 Lifo false true.
 Definition f14_ops : list op :=
   [Checkout 0; ConnEstablished; Retry 0; InterceptHold 0; Checkout 1; WaitTimeout 1 false].
 
 Lemma no_idle_hold_refuted_lemma :
-  session_mode f14_cfg = false /\ known_intercept_hold f14_ops = true /\
+  session_mode f14_cfg = false /\ f14_mutant f14_cfg = true /\
   clients (run f14_cfg f14_ops) 0 = Holding 0 IdleHeld /\
   clients (run f14_cfg f14_ops) 1 = NoServer /\ idleq (run f14_cfg f14_ops) = [] /\
   ~ no_idle_hold (run f14_cfg f14_ops).
